@@ -509,6 +509,34 @@ pub fn worker_libcompress(spec_path: &str) -> i32 {
         },
     };
     let rt = crate::exec::rt_multi(v["workers"].as_u64().unwrap() as usize);
+    if frag_seed % 5 >= 3 {
+        // Process history: a library user writes many archives in one process. Before the
+        // judged archive, write one or two others with different settings (another level of
+        // the same codec, another chunker, hash length, metadata) and discard them; what a
+        // process did before must not show in the next archive.
+        for k in 0..(1 + frag_seed % 2) {
+            let other = match comp {
+                Comp::None => Comp::Brotli(2),
+                Comp::Brotli(l) => Comp::Brotli(if l >= 6 { 1 + (k as u32) } else { 9 + (k as u32) }),
+                Comp::Zstd(l) => Comp::Zstd(if l >= 10 { 1 + (k as u32) } else { 15 + (k as u32) }),
+                Comp::Lzma(l) => Comp::Lzma(if l >= 5 { 1 + (k as u32) } else { 7 + (k as u32) }),
+            };
+            let mut psrc = Vec::new();
+            for i in 0..6000u32 {
+                psrc.push(b"abcabcabd"[(i as usize + k as usize) % 9] ^ ((i / 700) as u8));
+            }
+            let pspec = crate::lib_drv::LibCompressSpec {
+                cfg: if k == 0 { r1::Cfg::fixed(997) } else { r1::Cfg { algo: r1::Algo::BuzHash, window: 8, min: 16, max: 900, bits: 5 } },
+                comp: other,
+                hash_len: 13,
+                buffered: 2,
+                metadata: vec![("prelude".to_string(), vec![1, 2, 3])],
+                frag: FragPlan::All,
+                pend: PendPlan::Never,
+            };
+            let _ = rt.block_on(crate::lib_drv::lib_compress(std::sync::Arc::new(psrc), &pspec));
+        }
+    }
     if frag_seed % 2 == 0 {
         // Sink variant: buffering writer handed over by value.
         return match rt.block_on(crate::lib_drv::lib_compress_to_file(source, &spec, std::path::Path::new(v["out"].as_str().unwrap()))) {
